@@ -662,6 +662,39 @@ func runC11(c *Ctx, r *Report) {
 				}
 			}
 		}
+		// a loop that goes on while workers are in flight waits on the condition variable: spinning there keeps the
+		// process mutex, and the workers, which need it to report, never finish
+		for _, fn := range p.AllViews(pq) {
+			walkNoLit(fn.Body, func(n ast.Node) bool {
+				fs, ok := n.(*ast.ForStmt)
+				if !ok || fs.Cond == nil {
+					return true
+				}
+				onCounter := false
+				for _, alt := range dnfCond(fs.Cond, true) {
+					for _, a := range alt {
+						if _, ok := p.normalizeCmp(fn, a, isCounterE(fn)); ok {
+							onCounter = true
+						}
+					}
+				}
+				if !onCounter {
+					return true
+				}
+				waits := false
+				ast.Inspect(fs.Body, func(m ast.Node) bool {
+					if call, ok := m.(*ast.CallExpr); ok {
+						if f := p.Callee(fn, call); f != nil && isFunc(f, "sync", "Cond", "Wait") {
+							waits = true
+						}
+					}
+					return true
+				})
+				r.Check(waits, "R-C11.16", r.Key("R-C11.16", fn, "counter-loop-waits", ""), fs.Pos(), "the loop on the in-flight counter waits on the condition variable",
+					"a loop that goes on while workers are in flight does not wait on the condition variable: it spins holding the process mutex, the workers block on that mutex before they can report, and the load never returns")
+				return true
+			})
+		}
 		// initial value
 		okInit, why := false, "no single initialisation of the counter found"
 		if cv, isVar := counter.(*types.Var); isVar && cv.IsField() {
